@@ -322,6 +322,48 @@ func resolveObs(comp func() gotypes.Component, path []pstep) (s string) {
 	return fmt.Sprintf("(ROk %s %s %s %s)", cStr(b.Addr.Symbol.Name), cZ(int64(b.Addr.Disp)), base, coqKindOf(b.Type))
 }
 
+// fieldNames lists every field name occurring anywhere in t.
+func fieldNames(t *gty) []string {
+	if t == nil {
+		return nil
+	}
+	var xs []string
+	for _, f := range t.Fields {
+		xs = append(xs, f.Name)
+		xs = append(xs, fieldNames(f.T)...)
+	}
+	return append(xs, fieldNames(t.Elem)...)
+}
+
+// resolveHeld is resolveObs with the last step taken from a held parent, followed by every sibling access on
+// that parent, one at a time; it returns the first observation that differs from the plain one (or the plain one).
+func resolveHeld(comp func() gotypes.Component, path []pstep, sibs []pstep) (string, string) {
+	plain := resolveObs(comp, path)
+	for _, sib := range sibs {
+		got := func() (s string) {
+			defer func() {
+				if recover() != nil {
+					s = "RPanic"
+				}
+			}()
+			parent := comp()
+			for _, st := range path[:len(path)-1] {
+				parent = st.Apply(parent)
+			}
+			first := path[len(path)-1].Apply(parent)
+			func() {
+				defer func() { recover() }()
+				sib.Apply(parent)
+			}()
+			return resolveObs(func() gotypes.Component { return first }, nil)
+		}()
+		if got != plain {
+			return got, sib.Desc
+		}
+	}
+	return plain, ""
+}
+
 func c07(c *Ctx) {
 	o := c.Out
 	defer derefBuildCheck(c)
@@ -334,6 +376,7 @@ func c07(c *Ctx) {
 	var mirror []string // struct sources for the compiler cross-check
 	var mirrorCoq []string
 	npaths, nerr := 0, 0
+	nheld, nheldBad := 0, 0
 	for j := 0; j < n; j++ {
 		np, nr := rng.Intn(5), rng.Intn(4)
 		type pv struct {
@@ -371,6 +414,15 @@ func c07(c *Ctx) {
 			[2][]pv{{{"p", &gty{Kind: "struct", Fields: []gfield{{"Head", bt("uint32")}, {"_", arr(60, bt("uint8"))}, {"Tail", bt("uint64")}, {"_", arr(7, bt("uint8"))}, {"Flag", bt("uint8")}}}}}, {{"r", bt("uint64")}}},
 			[2][]pv{{{"a", bt("uint8")}, {"q", &gty{Kind: "struct", Fields: []gfield{{"_", bt("uint64")}, {"X", bt("uint16")}, {"_", &gty{Kind: "struct"}}, {"Y", bt("uint32")}}}}}, nil},
 			[2][]pv{{{"v", arr(2, &gty{Kind: "struct", Fields: []gfield{{"_", bt("uint8")}, {"W", bt("uint64")}}})}}, {{"", bt("bool")}}},
+		)
+		// deep values: components four to eight accessors away from the parameter
+		firstDeep := len(corpus)
+		st := func(fs ...gfield) *gty { return &gty{Kind: "struct", Fields: fs} }
+		pt := st(gfield{"X", bt("uint64")}, gfield{"Y", bt("uint64")})
+		corpus = append(corpus,
+			[2][]pv{{{"s", st(gfield{"Hdr", st(gfield{"N", bt("uint32")}, gfield{"Pts", arr(3, pt)})}, gfield{"T", bt("uint8")})}}, {{"r", bt("uint64")}}},
+			[2][]pv{{{"m", st(gfield{"Rows", arr(2, st(gfield{"Cell", st(gfield{"Lo", bt("uint8")}, gfield{"Hi", bt("uint64")})}, gfield{"Tag", bt("uint16")}))})}}, nil},
+			[2][]pv{{{"d", arr(2, st(gfield{"A", arr(2, st(gfield{"B", arr(2, st(gfield{"C", arr(2, pt)}, gfield{"Z", bt("complex128")}))}, gfield{"S", bt("string")}))}, gfield{"L", &gty{Kind: "slice", Elem: bt("uint8")}}))}}, {{"o", st(gfield{"P", st(gfield{"Q", st(gfield{"R", pt})})})}}},
 		)
 		if j < len(corpus) {
 			ps, rs = corpus[j][0], corpus[j][1]
@@ -477,15 +529,37 @@ func c07(c *Ctx) {
 						}
 					}
 				}
-				for k := 0; k < 3+len(sweep); k++ {
+				nrand := 3
+				if j < len(corpus) && j >= firstDeep {
+					nrand = 40
+				}
+				for k := 0; k < nrand+len(sweep); k++ {
 					var path []pstep
-					if k < 3 {
+					if k < nrand {
 						path = genPath(rng, v.t)
 					} else {
-						path = sweep[k-3]
+						path = sweep[k-nrand]
 					}
 					ii := i
 					ob := resolveObs(func() gotypes.Component { return t.At(ii) }, path)
+					// the same component taken from a parent that is held and asked for other sub-components
+					// before this one is resolved: a component is a value, later accesses cannot move it
+					if len(path) > 0 && nheldBad < 5 {
+						sibs := everyStep()
+						for _, fn := range fieldNames(v.t) {
+							name := fn
+							sibs = append(sibs, pstep{"", "Field(" + name + ")", func(c gotypes.Component) gotypes.Component { return c.Field(name) }})
+						}
+						nheld++
+						if held, which := resolveHeld(func() gotypes.Component { return t.At(ii) }, path, sibs); held != ob {
+							nheldBad++
+							var ds []string
+							for _, st := range path {
+								ds = append(ds, st.Desc)
+							}
+							o.Plan.GoViolations = append(o.Plan.GoViolations, GoViolation{Key: "layout:sibling-moves-component", Desc: fmt.Sprintf("%s: %v[%d].%s resolves to %s, but to %s when %s is taken from the same parent component before it is resolved", expr, map[bool]string{false: "param", true: "result"}[isres], i, strings.Join(ds, "."), ob, held, which), Replay: map[string]any{"signature": expr, "path": strings.Join(ds, "."), "sibling": which}})
+						}
+					}
 					var cs, ds []string
 					for _, st := range path {
 						cs = append(cs, st.Coq)
@@ -566,6 +640,7 @@ func c07(c *Ctx) {
 	o.Plan.Stats["signatures"] = n
 	o.Plan.Stats["paths"] = npaths
 	o.Plan.Stats["paths_resolving_to_error"] = nerr
+	o.Plan.Stats["paths_re-resolved_from_a_held_parent_with_siblings_taken"] = nheld
 }
 
 func sign(i int) int {
